@@ -520,6 +520,15 @@ def check(rep):
             rows.append((p, doc, df, istx))
         table_lines.append('c16.params %s %s' % (op.table, op.name))
         table_expect.append((op, rows))
+    # --- corpus of past failures first -------------------------------------------------------------
+    by_name = {o.name: o for o in ops}
+    for path in sorted((common.CORPUS / 'C16').glob('*.json')):
+        for c in json.loads(path.read_text()).get('cases', []):
+            op = by_name.get(c['op'])
+            if op is None:
+                rep.mismatch({'corpus': path.name}, 'operation %s' % c['op'], 'no longer exists')
+                continue
+            ses.one(op, dict(base_args(op), **c['args']), c['scenario'], tx_of[op.name], 'corpus', bad=c.get('bad', []))
     # --- systematic wrong-type sweep --------------------------------------------------------------
     for op in ops:
         tx = tx_of[op.name]
